@@ -53,8 +53,9 @@ def float_tok(x: float) -> str:
     return repr(x)
 
 
-def enc(v) -> str:
-    """Python value -> protocol tokens (single string, space separated)"""
+def enc(v, top: bool = True) -> str:
+    """Python value -> protocol tokens (single string, space separated).  A tuple is a distinct kind only as a whole
+    argument; nested inside a container it is written as the array the value model represents it by."""
     if v is None:
         return "n"
     if v is True:
@@ -78,17 +79,19 @@ def enc(v) -> str:
     if isinstance(v, str):
         return "s" + codes(v)
     if isinstance(v, list):
-        return "[ " + "".join(enc(x) + " " for x in v) + "]"
+        return "[ " + "".join(enc(x, False) + " " for x in v) + "]"
     if isinstance(v, dict):
         out = ["{ "]
         for k, x in v.items():
             if not isinstance(k, str):
                 raise TypeError("non-str dict key not representable")
-            out.append("s" + codes(k) + " " + enc(x) + " ")
+            out.append("s" + codes(k) + " " + enc(x, False) + " ")
         out.append("}")
         return "".join(out)
     if isinstance(v, tuple):
-        return "( " + "".join(enc(x) + " " for x in v) + ")"
+        if not top:
+            return "[ " + "".join(enc(x, False) + " " for x in v) + "]"
+        return "( " + "".join(enc(x, False) + " " for x in v) + ")"
     if isinstance(v, bytes):
         return "b" + v.hex()
     if isinstance(v, bytearray):
